@@ -139,17 +139,18 @@ def decLoop {β : Type} (unit : Bytes → Option (List β × Bytes)) : Nat → B
     | none => none
     | some (out, rest) => (decLoop unit fuel rest).map (out ++ ·)
 
-theorem decLoop_roundtrip {α β : Type} (unit : Bytes → Option (List β × Bytes))
+/-- Generic round trip, for lists whose elements satisfy `P`. -/
+theorem decLoop_roundtrip_on {α β : Type} (P : α → Prop) (unit : Bytes → Option (List β × Bytes))
     (enc : α → Bytes) (out : α → List β)
-    (hstep : ∀ a rest, unit (enc a ++ rest) = some (out a, rest))
+    (hstep : ∀ a, P a → ∀ rest, unit (enc a ++ rest) = some (out a, rest))
     (hpos : ∀ a, 0 < (enc a).length) :
-    ∀ (s : List α) (fuel : Nat), (s.flatMap enc).length ≤ fuel →
+    ∀ (s : List α), (∀ a ∈ s, P a) → ∀ (fuel : Nat), (s.flatMap enc).length ≤ fuel →
       decLoop unit fuel (s.flatMap enc) = some (s.flatMap out) := by
   intro s
   induction s with
-  | nil => intro fuel _; cases fuel <;> simp [decLoop]
+  | nil => intro _ fuel _; cases fuel <;> simp [decLoop]
   | cons a s ih =>
-    intro fuel hf
+    intro hP fuel hf
     have hp := hpos a
     simp only [List.flatMap_cons, List.length_append] at hf ⊢
     cases fuel with
@@ -158,13 +159,23 @@ theorem decLoop_roundtrip {α β : Type} (unit : Bytes → Option (List β × By
       cases hea : enc a with
       | nil => simp [hea] at hp
       | cons x xs =>
-        have hs := hstep a (s.flatMap enc)
+        have hs := hstep a (hP a (by simp)) (s.flatMap enc)
         rw [hea] at hs
         simp only [List.cons_append] at hs ⊢
         simp only [decLoop, hs]
         have : (s.flatMap enc).length ≤ f := by
           rw [hea] at hf; simp only [List.length_cons] at hf; omega
-        rw [ih f this]; rfl
+        rw [ih (fun b hb => hP b (by simp [hb])) f this]; rfl
+
+theorem decLoop_roundtrip {α β : Type} (unit : Bytes → Option (List β × Bytes))
+    (enc : α → Bytes) (out : α → List β)
+    (hstep : ∀ a rest, unit (enc a ++ rest) = some (out a, rest))
+    (hpos : ∀ a, 0 < (enc a).length) :
+    ∀ (s : List α) (fuel : Nat), (s.flatMap enc).length ≤ fuel →
+      decLoop unit fuel (s.flatMap enc) = some (s.flatMap out) := by
+  intro s fuel hf
+  exact decLoop_roundtrip_on (fun _ => True) unit enc out (fun a _ rest => hstep a rest) hpos s
+    (fun _ _ => trivial) fuel hf
 
 /-- Enumeration principle for bytes: a decidable predicate that holds for the 256 values holds for all. -/
 theorem u8_forall {p : UInt8 → Prop} [DecidablePred p]
@@ -177,18 +188,23 @@ end DyntplV
 
 namespace DyntplV
 
-/-- `i`-th hex digit (lower case) of `r`, counted from the least significant. -/
-def hexDigitAt (r i : Nat) : UInt8 := hexLo (UInt8.ofNat (r / 16 ^ i % 16))
+/-- Lower-case hex digit of `r` at weight `k` (k = 16^i). -/
+def hd (r k : Nat) : UInt8 := hexLo (UInt8.ofNat (r / k % 16))
 
 /-- Lower-case hex text without leading zeros, closed form for values below 2^24
     (every rune is below 0x110000).  Go: `strconv.AppendInt(dst, int64(r), 16)`. -/
 def hexLoRune (r : Nat) : Bytes :=
-  if r < 0x10 then [hexDigitAt r 0]
-  else if r < 0x100 then [hexDigitAt r 1, hexDigitAt r 0]
-  else if r < 0x1000 then [hexDigitAt r 2, hexDigitAt r 1, hexDigitAt r 0]
-  else if r < 0x10000 then [hexDigitAt r 3, hexDigitAt r 2, hexDigitAt r 1, hexDigitAt r 0]
-  else if r < 0x100000 then [hexDigitAt r 4, hexDigitAt r 3, hexDigitAt r 2, hexDigitAt r 1, hexDigitAt r 0]
-  else [hexDigitAt r 5, hexDigitAt r 4, hexDigitAt r 3, hexDigitAt r 2, hexDigitAt r 1, hexDigitAt r 0]
+  if r < 0x10 then [hd r 1]
+  else if r < 0x100 then [hd r 16, hd r 1]
+  else if r < 0x1000 then [hd r 256, hd r 16, hd r 1]
+  else if r < 0x10000 then [hd r 4096, hd r 256, hd r 16, hd r 1]
+  else if r < 0x100000 then [hd r 65536, hd r 4096, hd r 256, hd r 16, hd r 1]
+  else [hd r 1048576, hd r 65536, hd r 4096, hd r 256, hd r 16, hd r 1]
+
+/-- Longest prefix satisfying `p`, and the rest. -/
+def spanP (p : UInt8 → Bool) : Bytes → Bytes × Bytes
+  | [] => ([], [])
+  | c :: rest => if p c then ((c :: (spanP p rest).1), (spanP p rest).2) else ([], c :: rest)
 
 /-- Value of a run of hex digits (either case); non-hex bytes count as 0 (callers check first). -/
 def hexVal (b : Bytes) : Nat := b.foldl (fun acc c => acc * 16 + ((unhex c).getD 0).toNat) 0
